@@ -35,6 +35,8 @@ var probes = map[string]bool{
 	"hub.Hub.HandleConnectionClosed":              true,
 	"hub.Hub.HandleShipHandshakeStateUpdate":      true,
 	"hub.Hub.initateConnection":                   true,
+	"mdns.AvahiProvider.Announce":                 true,
+	"mdns.AvahiProvider.Unannounce":               true,
 }
 
 type edit struct {
